@@ -33,14 +33,14 @@ CHECKS = {
             "Only schedules that happened are judged. Race reports are attributed to iavl only if both stacks contain a non-test iavl frame. MutableTree methods other than GetImmutable are not called concurrently (outside the statement).",
             "DESIGN.md §3 C06"),
     "C18": ("exploration",
-            "runtime monitoring: differential execution of random KV programs on all bundled backends and nestings against a sorted-map model, with sentinel keys around prefix ranges and a concurrent batch-atomicity probe",
-            "Random programs of point ops, rejected writes, bounded forward/reverse iterators and batch life cycles over a 0x00/0xFF-heavy alphabet on MemDB, GoLevelDB, PrefixDB(MemDB), PrefixDB(GoLevelDB), PrefixDB(PrefixDB(MemDB)); parents hold sentinels below/at/above the prefix range incl. the 0xFF carry case.",
+            "runtime monitoring: differential execution of random KV programs on all bundled backends and nestings against a sorted-map model, with sentinel keys around prefix ranges, a concurrent batch-atomicity probe and point writes from a second goroutine against an open iterator",
+            "Random programs of point ops, rejected writes, bounded forward/reverse iterators and batch life cycles over a 0x00/0xFF-heavy alphabet on MemDB, GoLevelDB, PrefixDB(MemDB), PrefixDB(GoLevelDB), PrefixDB(PrefixDB(MemDB)); parents hold sentinels below/at/above the prefix range incl. the 0xFF carry case. One case in 17 opens an iterator over 150-600 of 1000 keys on every backend while a second goroutine deletes and sets keys outside its domain: the iterator yields exactly its domain and the writes take effect.",
             "Trusted: the sorted-map model. Key()/Next() are never called on invalid iterators.",
             "DESIGN.md §3 C18"),
     "C16": ("exploration",
             "runtime monitoring: databases written by the real legacy library (iavl v0.20.0) opened by the current one; generator record, model and reference tree as oracles after every step of follow-up histories",
             "Each case builds a legacy GoLevelDB with the real v0.20.0 library (seeded history, with/without legacy-side deletions) and runs several follow-up histories on fresh copies with the current library: opening state vs the generator's record (availability, contents, hashes), then commits with/without writes, pruning below/at/above the boundary, rollbacks into the legacy range and reopenings, judged after every step by M and R (legacy trees decoded from raw storage by D and re-hashed by R).",
-            "Trusted: iavl v0.20.0 + cometbft-db v0.7.0 as generator/oracle, D, M, R. Two genuine defects in the legacy path are recorded in known_findings.json (non-unique (v,0) key of re-saved legacy roots).",
+            "Trusted: iavl v0.20.0 + cometbft-db v0.7.0 as generator/oracle, D, M, R. Two genuine defects in the legacy path are recorded in known_findings.json (non-unique (v,0) key of re-saved legacy roots). Rollbacks into the legacy range are repeated under C17's single-fault enumeration; deletions across the boundary are also tried while an Exporter pins a covered version (rejected, store unchanged, nothing hidden).",
             "DESIGN.md §3 C16"),
     "C07": ("exploration",
             "runtime monitoring: differential monitor indexed reads vs tree-walk reads after every step, plus raw fast-index audit with the independent decoder, every (re)open choosing index on/off and the version to load",
@@ -59,7 +59,7 @@ CHECKS = {
             "DESIGN.md §3 C09"),
     "C10": ("exploration",
             "runtime monitoring: export stream vs reference post-order stream, import round trips (plain/compressed) judged by hash, model reads, ICS-23 proofs, raw audit and future commit hashes; hostile-stream fuzzing of the importers with panic/visibility oracle; three-batch imports with every batch write failed once (deadlock verdict from goroutine dumps)",
-            "Fidelity on generated histories incl. empty tree, single leaf, reference roots and >10000-node imports; totality on ~48000 (quick) hostile ExportNode sequences: no panic, and nothing visible unless Commit succeeded.",
+            "Fidelity on generated histories incl. empty tree, single leaf, reference roots and >10000-node imports; totality on ~48000 (quick) hostile ExportNode sequences: no panic, and nothing visible unless Commit succeeded; compressed streams also announce shared-prefix lengths around 2^31, 2^32, 2^63 and 2^64-1.",
             "Trusted: R (stream, future hashes), M, ics23. Storage faults during import are C17's subject.",
             "DESIGN.md §3 C10"),
     "C11": ("exploration",
@@ -69,18 +69,18 @@ CHECKS = {
             "DESIGN.md §3 C11"),
     "C13": ("exploration",
             "runtime monitoring: independent codec D vs reference tree R on raw storage after every step (byte-exact), D-encoded databases opened by the library, and decoder fuzzing with panic / allocation oracle",
-            "Forward and reverse format checks on generated histories (reference roots in 13- and 9-byte form, empty roots, fast index, varint boundary versions) and ~120000 (quick) mutated/random inputs to MakeNode, MakeLegacyNode, DeserializeNode, the varint/bytes decoders and the reference-root reader.",
+            "Forward and reverse format checks on generated histories (reference roots in 13- and 9-byte form, empty roots, fast index, varint boundary versions) and ~120000 (quick) mutated/random inputs to MakeNode, MakeLegacyNode, DeserializeNode, the varint/bytes decoders and the reference-root reader (incl. reference roots that name their own entry or a neighbour that refers back).",
             "Trusted: D and R. A child link naming a pruned version's old root by its re-keyed key (v,0) is accepted as the same node (the library writes and resolves both).",
             "DESIGN.md §3 C13"),
     "C15": ("exploration",
             "runtime monitoring: model-based oracle for extracted change sets (net writes per version) and replay of the extracted sets into an empty tree",
             "TraverseStateChanges over full and random sub-ranges after every commit: each delivered version equals the model's net change (ascending, once per key, set entries also for unchanged values, delete entries for vanished keys), requested versions delivered; SaveChangeSet replay reproduces contents of every version, root hashes when the original writes were in normal form, and rejects removal of a missing key.",
-            "Trusted: model M incl. its per-version 'last op was a Set' bookkeeping; R for original hashes.",
+            "Trusted: model M incl. its per-version 'last op was a Set' bookkeeping; R for original hashes. Change sets that are not in normal form are applied pair by pair (two removals of one key in a row must be rejected; a key set and removed inside the set is not missing); 1 history in 125 has a version touching a contiguous run of 1100-2000 keys.",
             "DESIGN.md §3 C15"),
     "C17": ("fault_enumeration",
             "runtime monitoring with systematic single-fault enumeration at the storage seam (every storage call of every public operation fails once) plus random multi-fault runs; differential oracle against the fault-free result and the C05 state oracle; same-handle follow-up after every fault; never-returning calls decided from goroutine dumps",
             "Each public operation with an error result is run fault-free on a fresh handle to number its storage calls, then once per call index with exactly that call failing (Get, Has, iterator creation/step, batch Set/Delete/Write): it must return an error or exactly the fault-free result, never panic; a write operation with a failed write must not report success, and the store left behind must reopen to the state before or after.",
-            "Faults are injected at the corestore interface; a failed batch write applies nothing. Operations without an error result are outside the statement.",
+            "Faults are injected at the corestore interface; a failed batch write applies nothing; a failed seek leaves an iterator that is invalid from the start with Error() set. After a deletion or rollback that reported its fault the operation is repeated on the same handle with healthy storage: a repetition that reports success must leave the state after the operation. Operations without an error result are outside the statement.",
             "DESIGN.md §3 C17"),
     "C19": ("exploration",
             "runtime monitoring: differential execution v2 vs v1 vs reference tree vs model on the same per-version write sets, over all 80 option combinations, reads and bounded iterators after every commit (and on uncommitted states)",
